@@ -305,6 +305,15 @@ partial def badMb (s : List Byte) : Bool :=
 
 def hasBadMbString (v : V) : Bool := anyVal (fun | .str s => badMb s | _ => false) v
 
+/-- an upper bound of the length of the saved text of a value that needs no knowledge of the format beyond: a byte of a
+    string takes at most two, a number at most 32 characters, a container 5 and one delimiter per element -/
+partial def textUpper : V → Nat
+  | .str s => 2 * s.length + 3
+  | .arr xs => 5 + (xs.toList.map (fun v => textUpper v + 1)).foldl (· + ·) 0
+  | .cls xs => 5 + (xs.toList.map (fun v => textUpper v + 1)).foldl (· + ·) 0
+  | .map ps => 5 + (ps.toList.map (fun kv => textUpper kv.1 + textUpper kv.2 + 2)).foldl (· + ·) 0
+  | _ => 32
+
 /-- verdict on one restored value -/
 def cmpRestored (what : String) (orig got : V) : List String :=
   let e := expectOf orig
@@ -448,7 +457,11 @@ def judgeCmd (s : JState) (cmd : String) (impl : List String) : JState × List S
       | some (l, r) =>
         if l.startsWith "save " ∨ l == "save" then judgeRestored s vtxt v r
         else if l == "saveerr" then
-          (if depthOf v > maxDepth then s else s.flag [s!"save-refused {vtxt}"], r)
+          -- a refusal is right for a value nested too deep, or — with the message of the length test — when the text can
+          -- be longer than MaxStringLength at all (`textUpper`: no value whose text certainly fits may be refused)
+          let tooLong := (impl.takeWhile (· != "saveerr")).any (fun e => e.startsWith "err save_variable: the saved text is longer") ∧
+            textUpper v > maxStringLength
+          (if depthOf v > maxDepth ∨ tooLong then s else s.flag [s!"save-refused {vtxt}"], r)
         else (s.flag [s!"trace unexpected {l}"], r)
       | none => (s.flag [s!"trace missing-save {vtxt}"], [])
   | "rtl" :: fn :: args =>
